@@ -194,6 +194,11 @@ def h_desired(env, ops, n, outcome, init, func_ops=None, control_kind=None, cana
         got = [(g.name, g.target, g.control) + ((g.parameter,) if g.name in ("MEASURE", "CMEASURE") else ()) for g in circ.applied_gates]
         want = [tuple(a) for a in applied]
         env.check_same(got, want, "applied_gates are the gates selected by the outcomes")
+        # the simulation-free helper must list the same gates for the same outcome string
+        from tangelo.linq.circuit import generate_applied_gates
+        gen = generate_applied_gates(circ, desired_meas_result=outcome)
+        got2 = [(g.name, g.target, g.control) + ((g.parameter,) if g.name in ("MEASURE", "CMEASURE") else ()) for g in gen]
+        env.check_same(got2, want, "generate_applied_gates lists the gates selected by the outcomes")
 
 
 def h_total(env, ops, n, func_ops=None):
